@@ -946,6 +946,10 @@ class Run:
                     self.viol('process_does_not_terminate', error=str(exc), after='a callback raised in process()')
                 except PropertyViolation:
                     raise
+                except UserCallbackError:
+                    # another armed callback raised (amplified histories arm dozens): user code failing again,
+                    # not the world
+                    self.flags['another_callback_raised_in_the_tail'] += 1
                 except Exception as exc:
                     self.viol('world_keeps_failing_after_a_failed_process', frames_later=k + 1, exception=repr(exc))
             # ... and whoever still exists can be deleted like any other entity ("process() completes for every
